@@ -2067,6 +2067,17 @@ impl Transaction {
 
                 let existing_fragments = maybe_existing_fragments?;
 
+                // All new files have the same fields (checked above)
+                let fields_replaced = new_datafiles
+                    .first()
+                    .map(|file| {
+                        file.fields
+                            .iter()
+                            .filter_map(|field_id| u32::try_from(*field_id).ok())
+                            .collect::<Vec<_>>()
+                    })
+                    .unwrap_or_default();
+
                 // 2. check that the fragments being modified have isomorphic layouts along the columns being replaced
                 // 3. add modified fragments to final_fragments
                 for (frag_id, new_file) in old_fragment_ids.iter().zip(new_datafiles) {
@@ -2121,6 +2132,14 @@ impl Transaction {
                     }
                     final_fragments.push(new_frag);
                 }
+
+                // The replaced files hold new values for their fields, so an index on one of
+                // those fields no longer describes the fragments that were modified.
+                Self::prune_updated_fields_from_indices(
+                    &mut final_indices,
+                    &final_fragments,
+                    &fields_replaced,
+                );
 
                 let fragments_changed = old_fragment_ids
                     .iter()
